@@ -105,6 +105,8 @@ def step(S, T, name, a, b):
         S.move(a, -a)
     elif name == "scale":
         S.scale(b, b)
+    elif name == "scale_neg":
+        S.scale(-b, -b)
     elif name == "scale_xy":
         S.scale(b, 1 / b)
     elif name == "rotate":
@@ -264,7 +266,7 @@ class Disturb:
 def specs(tier):
     Mo = "checks.c10"
     out = []
-    hists = [["float", "scale", "float"], ["in", "rotate", "move"], ["float", "move", "invert"], ["or", "move", "sub"], ["box", "scale_xy", "in"], ["split", "float", "scale"], ["contains", "move", "float"]]
+    hists = [["float", "scale", "float"], ["in", "rotate", "move"], ["float", "move", "invert"], ["or", "move", "sub"], ["box", "scale_xy", "in"], ["split", "float", "scale"], ["contains", "move", "float"], ["float", "scale_neg", "in"]]
     if tier != "quick":
         hists += [["eq", "scale", "contains"], ["xor", "rotate", "float"], ["float", "invert", "scale"], ["sub", "scale", "xor"], ["in", "scale_xy", "rotate"], ["contains", "move", "or"]]
     shapes = [("penta", "unit"), ("hollow", "unit")] if tier == "quick" else [("penta", "unit"), ("hollow", "unit"), ("two", "square"), ("inv:ell", "unit"), ("opring", "tri")]
